@@ -52,6 +52,9 @@ fn parse_ack(b: &[u8]) -> ParseOut {
     finish(guarded(|| {
         zvt::io::Ack::zvt_parse(b).map(|v| match v {
             zvt::io::Ack::Ack(p) => format!("Ack({:?})", p),
+            // a variant this harness does not know (the enum grew): still a variant returned for a control field
+            #[allow(unreachable_patterns)]
+            _ => "Other(Unknown)".to_string(),
         })
     }))
 }
